@@ -31,6 +31,8 @@ sys.path.insert(0, os.path.join(os.path.dirname(os.path.dirname(os.path.abspath(
 import vlib  # noqa: E402
 
 B = 2048
+if hasattr(sys, "set_int_max_str_digits"):
+    sys.set_int_max_str_digits(0)        # results such as (2^64-1)^64 have thousands of decimal digits
 SINT_MIN = -(1 << 63)
 MODES = ("q0i", "q2i", "q0c")
 # route labels used in finding keys: -Q0 interpreted (fint.c evaluates), -Q2 interpreted (of_cfold.c folds what it can,
